@@ -61,11 +61,11 @@ def deep_queue(pol, cap=3):
 
 
 def subs_direct(tier):
-    rs = {"r1": {0: red("D"), 1: red("K")}}
+    rs = {"r1": {0: red("D"), 1: red("K", eff("task"))}}       # Keep with an effect must still not notify
     progs = [{"c1": [S("add_sub", "s1"), S("add_sub", "s2"), D(1), D(2), D(3)] + STOP,
               "c2": [D(4, "trait")] if tier == "quick" else [D(4, "trait"), D(5, "trait")]}]
     acts = {1: 0, 2: 1, 3: 0, 4: 0, 5: 1}
-    return _i("subs", progs, acts, cap=2, red_script=rs,
+    return _i("subs", progs, acts, cap=2, red_script=rs, max_tasks=2,
               subs={"s1": {"kind": "direct"}, "s2": {"kind": "direct"}})
 
 
@@ -157,6 +157,10 @@ def effects(tier, variant=0):
         progs = [{"c1": [D(1), D(2)] + STOP}]
         return _i("eff1", progs, {1: 0, 2: 1, 8: 2, 9: 2}, cap=2, red_script={"r1": {0: red("D", eff("act", 9)), 1: red("D", eff("thunk", 8)), 2: red("D")}},
                   max_tasks=2, kinds=(0, 1, 2))
+    if variant == 4:          # the store is already closed (or being stopped by someone else) when stop() is called
+        rs = {"r1": {0: red("D", eff("task")), 1: red("D", eff("fn"))}}
+        progs = [{"c1": [D(1), D(2), O("close"), O("stop"), O("metrics")], "c2": [O("stop")]}]
+        return _i("eff4", progs, {1: 0, 2: 1}, cap=2, red_script=rs, max_tasks=2)
     if variant == 3:          # tasks and thunks handed over by a client while the store is running
         progs = [{"c1": [D(1), O("stop"), O("get_state")], "c2": [O("task"), TH(3)]}]
         return _i("eff3", progs, {1: 0, 3: 1}, cap=2, red_script={"r1": {0: red("D", eff("task")), 1: red("D")}}, max_tasks=3)
@@ -375,9 +379,10 @@ def table(pid, tier):
         T = dict(mc=[(i, inv, []) for i in insts], gen=[(i, 700 if q else 10000) for i in insts[:3]],
                  free=[(i, 60 if q else 500) for i in insts])
     elif pid == "C07":
-        a = pipeline_reg(tier)
-        inv = ["C07_ReducerContext", "C07_DirectOnReducer", "C07_Registered", "C07_InitRegistered", "C01_Fold"]
-        T = dict(mc=[(a, inv, [])], gen=[(a, 1500 if q else 20000)], free=[(a, 150 if q else 1500)])
+        a, b = pipeline_reg(tier), subs_unsub(tier)
+        inv = ["C07_ReducerContext", "C07_DirectOnReducer", "C07_Registered", "C07_InitRegistered", "C01_Fold", "C09_Notified"]
+        T = dict(mc=[(a, inv, []), (b, inv, [])], gen=[(a, 1000 if q else 20000), (b, 500 if q else 20000)],
+                 free=[(a, 100 if q else 1500), (b, 60 if q else 1000)])
     elif pid == "C08":
         a = readers(tier)
         inv = ["C08_Published", "C08_Valid", "C01_Fold"]
@@ -395,7 +400,7 @@ def table(pid, tier):
         T = dict(mc=[(i, inv, []) for i in insts], gen=[(i, 900 if q else 10000) for i in insts[:2]],
                  free=[(i, 80 if q else 500) for i in insts])
     elif pid == "C11":
-        insts = [effects(tier, 0), effects(tier, 1), effects(tier, 3)] + ([] if q else [effects(tier, 2)])
+        insts = [effects(tier, 0), effects(tier, 4), effects(tier, 1), effects(tier, 3)] + ([] if q else [effects(tier, 2)])
         inv = ["C11_AtMostOnce", "C11_Once", "C11_Worker", "C11_Followup", "C11_Once_strict"]
         T = dict(mc=[(i, inv, ["C11_QuietAfterStop"]) for i in insts], gen=[(i, 700 if q else 10000) for i in insts[:3]],
                  free=[(i, 80 if q else 500) for i in insts])
